@@ -8,6 +8,7 @@ import numpy as np
 import pandas as pd
 
 from symx import Obligation, Violation
+from harness.common import ranking_container
 from symx.rebind import rebound
 
 NAN = "__NAN__"
@@ -48,7 +49,7 @@ def h_ordinal(ctx, m, N, n_nan, ymode, props):
     ctx.assume(mf <= 0.5)
     X = pd.DataFrame({"f": pd.Series(col, dtype=object)})
     x_in = X.copy()
-    d = OrdinalDiscretizer(["f"], min_freq=mf, values_orders={"f": GroupedList(list(labels))}, copy=True, verbose=False)
+    d = OrdinalDiscretizer(["f"], min_freq=mf, values_orders={"f": GroupedList(ranking_container(ctx, labels))}, copy=True, verbose=False)
     try:
         d.fit(X, y)
     except Violation:
